@@ -1462,7 +1462,7 @@ class Engine:
             s = work.pop()
             while s.status == 'running':
                 steps += 1
-                if steps > max_steps or len(finals) + len(work) > self.max_paths:
+                if steps > max_steps or len(finals) + len(work) > self.max_paths or (getattr(self, "deadline", None) and time.time() > self.deadline):
                     s.status = 'cut'
                     s.notes.append('step/path budget')
                     break
